@@ -99,6 +99,8 @@ G_C08_AutomationAdmin(p, o) == (HasEffect(o) /\ OpByName(p.op).other = "automati
 G_C08_AutomationIdentity(p, o) == (HasEffect(o) /\ OpByName(p.op).other = "automation") => p.op = "rolecert_auto"
 \* a session cookie handed out by an admitted request is the admitted user's own (never another session found in the request)
 G_C06_CookieForActor(p, o) == o.cookieUser \in {"none", p.cred.user}
+\* a certificate handed to the requester in its own name (certificate request, refresh) names the admitted identity
+G_C06_SignedForActor(p, o) == (p.op \in {"certgen", "rolerefresh"} /\ o.signedSubject # "none") => o.signedSubject = p.cred.user
 \* the effect observed is the operation's own effect (nothing else leaks out of a request)
 G_C06_OnlyOwnEffect(p, o) == o.effects \subseteq {OpByName(p.op).effect, "cookie"}
 \* non-vacuity: the plainly legitimate request works
@@ -110,7 +112,7 @@ G_C06_LegitWorks(p, o) == Legit(p) => OpByName(p.op).effect \in o.effects
 
 Guards(p, o) == {<<"G_C06_NeedsValid", G_C06_NeedsValid(p, o)>>, <<"G_C06_KindAccepted", G_C06_KindAccepted(p, o)>>,
                  <<"G_C06_SameSite", G_C06_SameSite(p, o)>>, <<"G_C06_Identity", G_C06_Identity(p, o)>>,
-                 <<"G_C06_OnlyOwnEffect", G_C06_OnlyOwnEffect(p, o)>>, <<"G_C06_CookieForActor", G_C06_CookieForActor(p, o)>>, <<"G_C06_LegitWorks", G_C06_LegitWorks(p, o)>>,
+                 <<"G_C06_OnlyOwnEffect", G_C06_OnlyOwnEffect(p, o)>>, <<"G_C06_CookieForActor", G_C06_CookieForActor(p, o)>>, <<"G_C06_SignedForActor", G_C06_SignedForActor(p, o)>>, <<"G_C06_LegitWorks", G_C06_LegitWorks(p, o)>>,
                  <<"G_C08_Self", G_C08_Self(p, o)>>, <<"G_C08_Admin", G_C08_Admin(p, o)>>,
                  <<"G_C08_AdminU2F", G_C08_AdminU2F(p, o)>>, <<"G_C08_AutomationAdmin", G_C08_AutomationAdmin(p, o)>>,
                  <<"G_C08_AutomationIdentity", G_C08_AutomationIdentity(p, o)>>, <<"G_C10_NoPanic", ~o.panic>>}
@@ -124,7 +126,8 @@ CookieLevels == {{"pw"}, {"pw", "totp"}, {"pw", "u2f"}, {"fed"}, {"kmx509"}, {}}
 Creds == {NoCred} \cup {Cred("cookie", "good", u, fs) : u \in Users, fs \in CookieLevels}
          \cup {Cred("cookie", v, "root", {"pw", "u2f"}) : v \in {"expired", "expired_just", "notyet_just", "forged", "kind_cli"}}
          \cup {Cred("cookie", "decoy", "alice", fs) : fs \in {{"pw"}, {"pw", "u2f"}}}
-         \cup {Cred("basic", v, u, {}) : v \in {"ok", "badpw"}, u \in {"alice", "root"}}
+         \* typed_other: HTTP Basic with the name capitalised and the password of the backend's OTHER account of that spelling
+         \cup {Cred("basic", v, u, {}) : v \in {"ok", "badpw", "typed_other"}, u \in {"alice", "root"}}
          \cup {Cred("kmcert", v, u, {}) : v \in {"good", "denied", "adminca"}, u \in {"alice", "root"}}
          \cup {Cred("ipcert", v, "svc", {}) : v \in {"inside", "outside", "outside_near", "loopback_xff"}}
 \* operations without a target parameter
@@ -153,7 +156,8 @@ Probe == /\ out = Pending
                       /\ (op.change => req.origin # "cross") /\ (req.method = "POST" \/ ~op.change)
             IN out' = [effects |-> IF ok THEN {op.effect} ELSE {}, identity |-> IF Valid(req.cred) /\ AcceptsCred(op.accepts, req.cred, req.webui) THEN req.cred.user ELSE "none",
                        panic |-> FALSE, class |-> IF ok THEN "2xx" ELSE "4xx",
-                       cookieUser |-> IF ok /\ op.effect = "cookie" THEN req.cred.user ELSE "none"]
+                       cookieUser |-> IF ok /\ op.effect = "cookie" THEN req.cred.user ELSE "none",
+                       signedSubject |-> IF ok /\ op.name \in {"certgen", "rolerefresh"} THEN req.cred.user ELSE "none"]
          /\ UNCHANGED req
 Next == Probe
 Spec == Init /\ [][Next]_vars
